@@ -129,14 +129,18 @@ Fixpoint readsegment (cs : list choice) (avail tok buf : list Z) (n : nat) : rre
     end
   end.
 
-(* run a reader on the current socket: one ERecv per recv call; the reader's buffer is w_buf *)
+(* run a reader on self.sock: one ERecv per recv call; the reader's buffer is w_buf *)
 Section Run.
 Variable P : Type.
-Definition run_reader {A} (sid : Z) (r : list choice -> list Z -> list Z -> rres A * rstate * nat) : M P A :=
+Definition run_reader {A} (r : list choice -> list Z -> list Z -> rres A * rstate * nat) : M P A :=
   fun w =>
-    let '(res, (cs', avail', buf'), n) := r (w_choices w) (conn_get (w_conns w) sid) (w_buf w) in
-    let w1 := upd_buf (upd_conns (upd_choices w cs') (conn_set (w_conns w) sid avail')) buf' in
-    let '(_, w2) := log_n n (ERecv sid) w1 in
-    (match res with RDone a => Ok a | RRaise e => Raise e end, w2).
+    match w_sock w with
+    | None => (Raise AttributeError, w)
+    | Some sid =>
+      let '(res, (cs', avail', buf'), n) := r (w_choices w) (conn_get (w_conns w) sid) (w_buf w) in
+      let w1 := upd_buf (upd_conns (upd_choices w cs') (conn_set (w_conns w) sid avail')) buf' in
+      let '(_, w2) := log_n n (ERecv sid) w1 in
+      (match res with RDone a => Ok a | RRaise e => Raise e end, w2)
+    end.
 End Run.
 Arguments run_reader {P A}.
